@@ -391,6 +391,66 @@ fn assoc_type(i: &syn::ItemImpl, name: &str) -> Option<String> {
 
 // ------------------------------------------------------------ the target
 
+/// `fn resolve()` of `impl<P…> Value for X<P…>`: `let a = P::resolve().type_id; … let desc =
+/// TypeDescription::X(a, …); TypeRegistry::store::<Self>(desc)` → (head, constructor, positions of
+/// the type parameters the components describe).
+fn resolve_description(i: &syn::ItemImpl, ty: &str, head: &str) -> R {
+    let what = format!("impl Value for {ty}: resolve");
+    let params: Vec<String> = ty
+        .split_once('<')
+        .and_then(|(_, r)| r.strip_suffix('>'))
+        .ok_or(format!("{what}: type parameters"))?
+        .split(',')
+        .map(|x| x.to_string())
+        .collect();
+    let f = i
+        .items
+        .iter()
+        .find_map(|it| match it {
+            syn::ImplItem::Fn(f) if f.sig.ident == "resolve" => Some(f),
+            _ => None,
+        })
+        .ok_or(format!("{what}: not found"))?;
+    let mut bound: Vec<(String, usize)> = vec![];
+    let mut ctor = None;
+    let stmts: Vec<&Stmt> = f.block.stmts.iter().filter(|s| !matches!(s, Stmt::Local(l) if is_hook_attr(&l.attrs))).collect();
+    let (last, front) = stmts.split_last().ok_or(format!("{what}: empty"))?;
+    for st in front {
+        let Stmt::Local(l) = st else { return Err(format!("{what}: `{}`", toks(*st))) };
+        let Pat::Ident(pi) = &l.pat else { return Err(format!("{what}: `{}`", toks(&l.pat))) };
+        let init = toks(&l.init.as_ref().ok_or(format!("{what}: no initialiser"))?.expr);
+        if let Some(pname) = init.strip_suffix("::resolve().type_id") {
+            let k = params.iter().position(|x| x == pname).ok_or(format!("{what}: `{pname}` is not a type parameter"))?;
+            bound.push((pi.ident.to_string(), k));
+        } else if let Some(rest) = init.strip_prefix("TypeDescription::") {
+            let (c, args) = rest.split_once('(').and_then(|(c, a)| a.strip_suffix(')').map(|a| (c, a))).ok_or(format!("{what}: `{init}`"))?;
+            let mut pos_list = vec![];
+            for a in args.split(',').filter(|a| !a.is_empty()) {
+                let k = bound.iter().find(|(n, _)| n == a).ok_or(format!("{what}: `{a}` is not the TypeId of a type parameter"))?.1;
+                pos_list.push(k.to_string());
+            }
+            if pi.ident != "desc" {
+                return Err(format!("{what}: `{}`", toks(*st)));
+            }
+            ctor = Some((c.to_string(), pos_list));
+        } else {
+            return Err(format!("{what}: `{}`", toks(*st)));
+        }
+    }
+    if toks(*last) != "TypeRegistry::store::<Self>(desc)" {
+        return Err(format!("{what}: `{}` is not `TypeRegistry::store::<Self>(desc)`", toks(*last)));
+    }
+    let (c, pos_list) = ctor.ok_or(format!("{what}: no TypeDescription"))?;
+    let c = match c.as_str() {
+        "Option" => ".option",
+        "Result" => ".result",
+        "Verdict" => ".verdict",
+        "List" => ".list",
+        other => return Err(format!("{what}: TypeDescription::{other}")),
+    };
+    Ok(format!("({head}, {c}, {})", lean_list(&pos_list)))
+}
+
 // ------------------------------------------------------ check_roto_type (the gate)
 
 fn is_hook_attr(attrs: &[syn::Attribute]) -> bool {
@@ -725,6 +785,7 @@ fn boundary(repo: &Path) -> R {
     let vm = find::parse(repo, "src/value/mod.rs")?;
     o.push_str("\n/-! ### src/value/mod.rs -/\n");
     let mut kinds = vec![];
+    let mut descriptions = vec![];
     let mut simple = vec![];
     let mut simple_kind = None;
     for item in &vm.items {
@@ -749,6 +810,11 @@ fn boundary(repo: &Path) -> R {
                     return Err(format!("impl Value for {ty}: unexpected Transformed = {tf}"));
                 }
                 kinds.push(format!("({head}, {})", as_param_kind(&ty, &ap)?));
+                // how the registry describes the type to the gate: `TypeDescription::X(…)` over the
+                // type parameters, in which order
+                if matches!(head.as_str(), ".Option" | ".Result" | ".Verdict" | ".List") {
+                    descriptions.push(resolve_description(i, &ty, &head)?);
+                }
             }
             syn::Item::Macro(m) => {
                 let name = m.mac.path.to_token_stream().to_string();
@@ -777,6 +843,12 @@ fn boundary(repo: &Path) -> R {
         "/-- `type AsParam` of every `impl Value` (the `simple_value!` types last) -/\ndef asParamKinds : List (RustHead × ParamKind) := {}\ndef simpleValues : List RustHead := {}\n",
         lean_list(&kinds),
         lean_list(&simple)
+    ));
+    o.push_str(&format!(
+        "/-- `Value::resolve` of the generic types: the `TypeDescription` constructor stored for the Rust type and, per \
+         component, the position of the type parameter it describes (`Result<T, E>` is `Result(T, E)`) -/\n\
+         def rustDescriptions : List (RustHead × GateHead × List Nat) := {}\n",
+        lean_list(&descriptions)
     ));
     // Param impls: `*mut T` reads with ptr::read, `as_param` takes the address
     let vms = toks(&vm);
